@@ -196,7 +196,19 @@ def _date(off):
     return Date(*EPOCH) + timedelta(seconds=off)
 
 
-def lib_orbit(R, orient, s_qsw, mans):
+RTYPES = ['int', 'float', 'np.int64', 'np.float64']
+
+
+def cast_radius(R, rtype):
+    """The radius as the caller may hand it over (all radii of the alphabet are whole numbers of metres)."""
+    if rtype in (None, 'float'):
+        return float(R)
+    if int(R) != R:
+        raise RuntimeError('harness: radius is not a whole number')
+    return {'int': int, 'np.int64': np.int64, 'np.float64': np.float64}[rtype](int(R))
+
+
+def lib_orbit(R, orient, s_qsw, mans, rtype=None):
     """Fresh world, fresh HillFrame/propagator/Orbit; state and vectors given in QSW are expressed in `orient` axes."""
     from mc import world
     from mc.ref import hill
@@ -210,7 +222,7 @@ def lib_orbit(R, orient, s_qsw, mans):
         setup(None)
     world.restore(_G["snap"])
     frame = HillFrame(orientation=orient)
-    prop = ClohessyWiltshire(R, frame=frame)
+    prop = ClohessyWiltshire(cast_radius(R, rtype), frame=frame)
     M6 = hill.P6 if orient == "TNW" else np.eye(6)
     M3 = hill.P3 if orient == "TNW" else np.eye(3)
     orb = Orbit(M6 @ np.asarray(s_qsw, dtype=float), Date(*EPOCH), "cartesian", "Hill", prop)
@@ -298,9 +310,12 @@ def check_agree(case, t):
     from mc.ref import hill
 
     R, orient, s, mans, q = case["R"], case["orient"], case["s"], case["mans"], case["q"]
-    orb, M6 = lib_orbit(R, orient, s, mans)
+    rtype = case.get("rtype")
+    orb, M6 = lib_orbit(R, orient, s, mans, rtype)
     cls = sig_mans(mans, q)
     sig = f"cw.propagate/{cls}"
+    if rtype not in (None, "float"):
+        sig = f"cw.n/radius-{rtype}"  # same input as a float radius, different argument type
     clause = "state satisfies Hill's equations (with thrust / impulses)"
     r = _lib_prop(orb, q, t, sig, clause, case)
     if r is None:
@@ -325,7 +340,9 @@ def check_agree(case, t):
             best = (e, a)
     e, a = best
     grp = "impulse inside burn" if cls == "impulse-inside-burn" else "ordered maneuver lists" if mans else "free motion"
-    ok = t.margin(f"CW vs integrated Hill eq., {grp} [rel. to size of terms]", e, REL * g, case)
+    if rtype not in (None, "float"):
+        grp = f"radius given as {rtype}"
+    ok = t.margin(f"CW vs integrated Hill eq., {grp} [rel. to size of terms]", e if np.isfinite(e) else float("inf"), REL * g, case)
     d = r.date - orb.date
     if abs(d.total_seconds() - q) > 0:
         t.fail("cw.propagate/date", "result is dated at the requested date", case, q, d.total_seconds())
@@ -918,10 +935,95 @@ def check_hist(case, t):
     t.outcome(("hist", len(script), script[0][0], mutated))
 
 
+
+# ---------------------------------------------------------------------------
+# creation order of Hill frames / propagators / orbits
+
+
+def order_cases(R, tier):
+    """Two propagators (QSW and TNW) in one process: creation order x an extra HillFrame() afterwards x how each
+    orbit names its frame ('Hill' string = whatever HillFrame was registered last, or the propagator's own frame object)
+    x which orbit is built / propagated first."""
+    out = []
+    lists = [[], [dict(type="I", start=300.5, vec=[0.0, 0.2, 0.1])],
+             [dict(type="C", start=0.0, dur=450.125, vec=[1e-4, 2e-4, -3e-4], spec="accel", pos="start")]]
+    P = 2 * math.pi / mean_motion(R)
+    for order in ("QT", "TQ"):
+        for extra in (None, "QSW", "TNW"):
+            for bq in ("hill", "obj"):
+                for bt in ("hill", "obj"):
+                    for first in ("Q", "T"):
+                        for mans in lists:
+                            for q in (us(P / 5), 400.0) if tier == "quick" else (us(P / 5), 400.0, -us(P / 7), us(1.3 * P)):
+                                out.append(dict(kind="order", R=R, order=order, extra=extra, build=dict(Q=bq, T=bt), first=first,
+                                                s=[120.0, -300.0, 45.0, 0.3, -0.2, 0.1], mans=mans, q=q))
+    return out
+
+
+def check_order(case, t):
+    """Each propagator answers in ITS OWN orientation, whatever HillFrame objects were created before / after it and
+    however the orbit designates its frame."""
+    from mc import world
+    from mc.ref import hill
+    from beyond.dates import Date, timedelta
+    from beyond.orbits import Orbit
+    from beyond.orbits.man import ImpulsiveMan, ContinuousMan
+    from beyond.propagators.cw import ClohessyWiltshire
+    from beyond.frames.frames import HillFrame
+
+    if "snap" not in _G:
+        setup(None)
+    world.restore(_G["snap"])
+    R, s, mans, q = case["R"], case["s"], case["mans"], case["q"]
+    clause = "results of a TNW propagator are the fixed axis permutation of those of a QSW one (each propagator works in its own orientation)"
+    frames, props = {}, {}
+    for k in case["order"]:
+        orient = "QSW" if k == "Q" else "TNW"
+        frames[k] = HillFrame(orientation=orient)
+        props[k] = ClohessyWiltshire(R, frame=frames[k])
+    if case["extra"]:
+        HillFrame(orientation=case["extra"])
+    seq = [case["first"], "T" if case["first"] == "Q" else "Q"]
+    orbs = {}
+    for k in seq:
+        M6 = hill.P6 if k == "T" else np.eye(6)
+        M3 = hill.P3 if k == "T" else np.eye(3)
+        fr = "Hill" if case["build"][k] == "hill" else frames[k]
+        o = Orbit(M6 @ np.asarray(s, dtype=float), Date(*EPOCH), "cartesian", fr, props[k])
+        lst = []
+        for m in mans:
+            vec = M3 @ np.asarray(m["vec"], dtype=float)
+            if m["type"] == "I":
+                lst.append(ImpulsiveMan(_date(m["start"]), vec))
+            else:
+                lst.append(ContinuousMan(_date(m["start"]), timedelta(seconds=m["dur"]), accel=vec))
+        if lst:
+            o.maneuvers = lst
+        orbs[k] = o
+    ref = ref_state(R, s, mans, q)
+    n = mean_motion(R)
+    L, g = size(R, s, mans, q)
+    for k in seq:
+        orient = "QSW" if k == "Q" else "TNW"
+        M6 = hill.P6 if k == "T" else np.eye(6)
+        sig = f"cw.order/{orient}-propagator/orbit-frame-by-{'name' if case['build'][k] == 'hill' else 'object'}"
+        r = _lib_prop(orbs[k], q, t, sig, clause, case)
+        if r is None:
+            return
+        got = M6.T @ np.array(r, dtype=float)
+        e = max(np.max(np.abs(got[:3] - ref[:3])) / L, np.max(np.abs(got[3:] - ref[3:])) / (L * n))
+        if not t.margin("CW vs integrated Hill eq., creation orders [rel. to size of terms]", e if np.isfinite(e) else float("inf"), REL * g, case):
+            t.fail(sig, clause, case, M6 @ ref, np.array(r, dtype=float),
+                   f"{orient} propagator, orbit frame {orbs[k].frame.name}: scaled error {e:.3e}")
+            return
+        # information only: the label carried by the result (an orbit built with frame='Hill' takes the HillFrame registered last)
+        t.outcome(("order-label", orient, r.frame.name))
+
+
 # ---------------------------------------------------------------------------
 
 CHECKS = dict(agree=check_agree, perm=check_perm, compose=check_compose, jump=check_jump, kepler=check_kepler, helper=check_helper,
-              hist=check_hist)
+              hist=check_hist, order=check_order)
 
 
 def check_case(case, t):
@@ -946,6 +1048,9 @@ def units(tier, seed):
                 u.append((cfg, dict(part="man", R=R, orient=orient, tier=tier, half=half)))
             u.append((cfg, dict(part="kepler", R=R, orient=orient, tier=tier)))
             u.append((cfg, dict(part="helper", R=R, orient=orient, tier=tier)))
+    for R in RADII[tier][:1] if tier == "quick" else RADII[tier][1::3]:
+        for c in range(2):
+            u.append((cfg, dict(part="order", R=R, orient="QSW", tier=tier, chunk=c, of=2)))
     # history part: does not depend on the radius (quick: one radius), both orientations
     for R in RADII[tier][:1] if tier == "quick" else RADII[tier][1::3]:
         for orient in ORIENTS:
@@ -967,6 +1072,15 @@ def run_unit(p, t):
                 check_case(case, t)
                 if orient == "QSW":
                     check_case(dict(kind="perm", R=R, s=s, mans=[], q=q), t)
+            if si >= 6:
+                # the type of the radius argument (the docs pass a Python int): same answers as for a float
+                for rtype in RTYPES:
+                    if rtype == "float":
+                        continue
+                    for q in dd:
+                        check_case(dict(kind="agree", R=R, orient=orient, s=s, mans=[], q=q, rtype=rtype), t)
+                    burn = [dict(type="C", start=0.0, dur=450.125, vec=[1e-4, -2e-4, 3e-4], spec="accel", pos="start")]
+                    check_case(dict(kind="agree", R=R, orient=orient, s=s, mans=burn, q=us(P / 3), rtype=rtype), t)
             # composition and inverse on the dt alphabet
             for q1 in dd:
                 for q2 in dd:
@@ -1000,6 +1114,11 @@ def run_unit(p, t):
                 check_case(dict(kind="compose", R=R, orient=orient, s=s, mans=mans, q1=q1, q2=end), t)
             if li % 50 == 0:
                 t.sample(dict(kind="agree", R=R, orient=orient, s=s, mans=mans, q=qs[-1]))
+    elif p["part"] == "order":
+        cs = order_cases(R, tier)
+        for c in cs[p["chunk"] :: p["of"]]:
+            check_case(c, t)
+        t.sample(cs[7])
     elif p["part"] == "hist":
         s0 = [120.0, -300.0, 45.0, 0.3, -0.2, 0.1]
         lists = hist_lists(R, tier)
